@@ -89,6 +89,9 @@ impl<A: DecoderArithmetic> Decoder<A> {
         for (x, &y) in self.input_llrs.iter_mut().zip(llrs.iter()) {
             *x = self.arithmetic.input_llr_quantize(y)
         }
+        // The output LLRs of the previous codeword must not survive: with
+        // max_iterations == 0 they are used to form the returned word.
+        self.output_llrs.copy_from_slice(&self.input_llrs);
 
         // First variable messages use only input LLRs
         for (v, &llr) in self.input_llrs.iter().enumerate() {
